@@ -27,6 +27,27 @@ type Op struct {
 	Kind string `json:"kind"` // accept | send | ws | eof | idle
 	Conn int    `json:"conn"`
 	Data []byte `json:"data,omitempty"`
+
+	// a request that is serialised when it is sent: {{KM}} in a header value is the KeyMgmt header
+	// built from KM for the request URL, {{KMB64}} (header or body) the bare base64 message
+	Req *RawReq    `json:"req,omitempty"`
+	KM  *MikeySpec `json:"km,omitempty"`
+}
+
+// bytesNow serialises an op that carries a request with late-bound key-management material.
+func (op *Op) bytesNow() []byte {
+	if op.Req == nil {
+		return op.Data
+	}
+	r := op.Req.clone()
+	if op.KM != nil {
+		km, b64 := op.KM.header(r.URL), op.KM.b64()
+		for i := range r.Headers {
+			r.Headers[i][1] = strings.ReplaceAll(strings.ReplaceAll(r.Headers[i][1], "{{KMB64}}", b64), "{{KM}}", km)
+		}
+		r.Body = strings.ReplaceAll(r.Body, "{{KMB64}}", b64)
+	}
+	return r.Bytes()
 }
 
 // Case is a replayable correspondence case: one server, a serialised schedule of steps on
@@ -655,7 +676,7 @@ func runCase(c *Case, idle, read time.Duration, seed uint64) (*caseRun, error) {
 			}
 			switch op.Kind {
 			case "send":
-				cs.stepSend(p, op.Data)
+				cs.stepSend(p, op.bytesNow())
 			case "ws":
 				cs.stepWS(p)
 			case "eof":
